@@ -45,7 +45,7 @@ def make_judges(ctx):
         if ev.op not in STORE_OPS or ev.kind != 'method':
             return
         try:
-            si = decode_store(ev)
+            si = decode_store(ev, allow_fxp=True, allow_scaled_src=True)
         except Unsupported as e:
             ctx.skip('store:' + str(e))
             return
@@ -56,7 +56,11 @@ def make_judges(ctx):
             if ev.exc is not None and si.init_args and ('scale' in si.init_args or 'bias' in si.init_args):
                 ctx.violation('raises', 'constructing a scaled object raised %s: %s' % (type(ev.exc).__name__, str(ev.exc)[:100]), ev, key='scaled.ctor_raises')
             return
-        if post.scale == 1 and post.bias == 0:
+        if post.scale == 1 and post.bias == 0 and not si.src_scaled:
+            return
+        if si.fxp_source and si.init_args is not None and any(si.init_args.get(k) is None for k in ('signed', 'n_word', 'n_frac')) and si.init_args.get('dtype') is None \
+                and si.init_args.get('like') is None:
+            ctx.skip('store:fixed-point source without an explicit destination format')
             return
         ab = affine_of(post)
         if ab is None or ab[0] == 0 or post.is_complex:
@@ -102,6 +106,12 @@ def make_judges(ctx):
             i = next((i for i, (a, b) in enumerate(zip(post.codes, codes)) if a != b), 0)
             ctx.violation('wrong_code', '%s scale=%r bias=%r %s/%s via %s: stored %s, Q((v-b)/s) = %s (transformed inputs %s)' % (
                 R.dtype_fxp(*post.fmt()), post.scale, post.bias, post.rounding, post.overflow, si.route, post.codes[i:i + 3], codes[i:i + 3], [str(u) for u in us[i:i + 3]]), ev)
+        elif si.fxp_source:
+            # (a fixed-point source hands its inaccuracy flag over: only the range flags are compared)
+            pre_status = si.pre.status if (si.pre is not None and ev.op != '__init__') else {}
+            for f, now in (('overflow', over), ('underflow', under)):
+                if bool(post.status.get(f)) != (bool(pre_status.get(f)) or now) and (si.init_args is None or si.init_args.get('like') is None):
+                    ctx.violation('flags', '%s scale=%r bias=%r from a fixed-point source: %s flag %s, expected %s' % (R.dtype_fxp(*post.fmt()), post.scale, post.bias, f, post.status.get(f), bool(pre_status.get(f)) or now), ev)
         else:
             pre_status = si.pre.status if (si.pre is not None and ev.op != '__init__') else {}
             exp = dict((f, bool(pre_status.get(f))) for f in _FL)
@@ -121,9 +131,12 @@ def make_judges(ctx):
         key = ((sc > 0), sc == 1, bi == 0, ptypes, post.rounding, post.overflow, out, si.route)
         sample = None
         if ctx.want_sample() and out != 'exact':
-            sample = {'op': ev.op, 'format': R.dtype_fxp(*post.fmt()), 'scale': repr(post.scale), 'bias': repr(post.bias), 'inputs': [str(float(v)) for v in (exact_values(si.carrier)[0])[:3]],
+            sample = {'op': ev.op, 'format': R.dtype_fxp(*post.fmt()), 'scale': repr(post.scale), 'bias': repr(post.bias), 'inputs': [str(float(u * sc + bi)) for u in us[:3]],
                       'transformed': [str(u) for u in us[:3]], 'codes': post.codes[:3]}
-        ctx.judged(key, out != 'exact', sample, elements=len(us))
+        ctype = 'Fxp%s' % ('-scaled' if si.src_scaled else '') if si.fxp_source else (
+            str(si.carrier.dtype) if isinstance(si.carrier, (np.ndarray, np.generic)) else type(si.carrier).__name__)
+        ctx.judged(key + (ctype,), out != 'exact', sample, elements=len(us))
+        ctx.floor_hit(('carrier', ctype))
         ctx.floor_hit(('route', si.route))
         ctx.floor_hit(('params', sc > 0, sc == 1, bi == 0))
 
@@ -226,7 +239,7 @@ def make_judges(ctx):
 
 
 def floors(tier):
-    return [('route', r) for r in ('constructor', 'call', 'setitem', 'set_val')] + [('read', 'get_val'), ('read', 'astype'), ('read', '__call__'), ('read', 'element'), ('inferred',), ('resize',), ('raw-then-read',)] + \
+    return [('route', r) for r in ('constructor', 'call', 'setitem', 'set_val')] + [('carrier', c) for c in ('int8', 'int16', 'int32', 'uint8', 'uint16', 'uint64', 'float32', 'float16', 'Fxp', 'Fxp-scaled', 'int', 'float', 'float64', 'list')] + [('read', 'get_val'), ('read', 'astype'), ('read', '__call__'), ('read', 'element'), ('inferred',), ('resize',), ('raw-then-read',)] + \
            [('params', True, False, True), ('params', False, False, True), ('params', True, True, False), ('params', True, False, False), ('params', False, False, False)]
 
 
@@ -325,6 +338,58 @@ def run_case(case, ctx):
             _try(lambda: b.get_val(index=0))
             _try(lambda: b[len(ia) - 1]())
             _try(lambda: b.get_val(item=0))
+    # narrow / unsigned NumPy carriers (the affine conversion must not be calculated in the carrier's own type)
+    if i % 3 == 0:
+        for tname in ('int8', 'int16', 'int32', 'uint8', 'uint16', 'uint32', 'uint64', 'float32', 'float16'):
+            dt = np.dtype(tname)
+            if dt.kind in 'iu':
+                info = np.iinfo(dt)
+                cand = [v for v in vs if v.denominator == 1 and info.min <= v <= info.max]
+                # values of the carrier for which v - b leaves the carrier's own range or sign
+                extra = [F(t) for t in (info.min, info.max, 0, 3, info.max // 2 + 1) if abs(F(t) - bi) < 2 ** 50]
+                cand = (cand + [rng.choice(extra)] + extra[:1])[:3]
+            else:
+                cand = [v for v in vs if np.isfinite(dt.type(float(v))) and F(float(dt.type(float(v)))) == v][:3]
+            if not cand:
+                continue
+            k = rng.randrange(4)
+            xs = _try(lambda: Fxp(None, s, w, nf, **kw))
+            if k == 0:
+                _try(lambda: Fxp(np.array([dt.type(c) for c in cand], dtype=dt), s, w, nf, **kw))
+            elif k == 1:
+                _try(lambda: Fxp(dt.type(cand[0]), s, w, nf, **kw))
+            elif k == 2:
+                _try(lambda: Fxp([dt.type(c) for c in cand], s, w, nf, **kw))
+            elif xs is not None:
+                _try(lambda: xs(dt.type(cand[0])))
+                _try(lambda: xs.set_val(np.array([dt.type(c) for c in cand], dtype=dt)))
+            if xs is not None and k != 3:
+                _try(lambda: xs(np.array([dt.type(c) for c in cand], dtype=dt)))
+    # fixed-point values stored into a scaled object, and scaled objects stored into plain ones: the value is what is converted
+    if i % 3 == 1:
+        src_w = rng.randint(4, 16)
+        src_nf = rng.randint(0, 6)
+        slo, shi = R.code_range(True, src_w)
+        src = _try(lambda: Fxp([rng.randint(slo, shi) for _ in range(3)], True, src_w, src_nf, raw=True))
+        src0 = _try(lambda: Fxp(rng.randint(slo, shi), True, src_w, src_nf, raw=True))
+        if src is not None and src0 is not None:
+            _try(lambda: Fxp(src, s, w, nf, **kw))
+            _try(lambda: Fxp(src0, s, w, nf, **kw))
+            dst = _try(lambda: Fxp([0.0, 0.0, 0.0], s, w, nf, **kw))
+            if dst is not None:
+                _try(lambda: dst(src))
+                _try(lambda: dst.get_val())
+                _try(lambda: dst.set_val(src))
+                _try(lambda: dst.__setitem__(1, src0))
+                _try(lambda: dst.get_val())
+            ssrc = _try(lambda: Fxp([rng.randint(slo, shi) for _ in range(3)], True, src_w, src_nf, raw=True, scale=scale, bias=bias))
+            if ssrc is not None:
+                _try(lambda: Fxp(ssrc, True, 24, 8, rounding=r, overflow=o))
+                plain = _try(lambda: Fxp([0.0, 0.0, 0.0], True, 24, 8, rounding=r, overflow=o))
+                if plain is not None:
+                    _try(lambda: plain(ssrc))
+                    _try(lambda: plain.get_val())
+                _try(lambda: Fxp(ssrc, s, w, nf, rounding=r, overflow=o, scale=rng.choice([2, 0.5, -1]), bias=rng.choice([0, 1, -0.5])))
     # integer-only corner: unsigned, n_frac = 0, integer inputs, unit scale, negative integer bias (unsigned codes + negative bias)
     if i % 4 == 0:
         wu = rng.randint(1, 16)
